@@ -19,6 +19,9 @@ def run(prop, tier):
     reps += common.run_units("contracts.regs:unit_law", [dict(reg=r, kind="law") for r in RF.ALL], budget=300)
     temps = range(14) if tier == "thorough" else (0, 5, 13)
     reps += common.run_units("contracts.regs:unit_snapshot", [dict(temp=k, kind="snapshot") for k in temps], budget=300)
+    hist = [dict(reg=r, api="enum" if i % 2 == 0 else "name", kind="snapshot-after-write") for i, r in enumerate(x for x in RF.ALL if not x.startswith("TEMP"))]
+    hist += [dict(reg=r, api="flag", kind="snapshot-after-write") for r in ("FC", "FZ")]
+    reps += common.run_units("contracts.regs:unit_snapshot_history", hist, budget=300)
     reps += common.run_units("contracts.regs:unit_blob", [dict(kind="blob")], budget=300)
     v.absorb(reps, known)
     v.samples = [dict(obligation="set:IL:store:I", statement="forall file, v (64 bit): after Registers.set(IL, v): _values[I] == v & 0xFF"),
